@@ -131,6 +131,13 @@ def rng_fingerprint():
         return None
 
 
+def _pair_merge_condition(receiver, other):
+    try:
+        return len(receiver.pair_coeffs) == 0 and len(other.pair_coeffs) > 0 and len(receiver.atom_type_elements) > 0
+    except Exception:
+        return False
+
+
 def _rebind(name, new):
     import mofun, mofun.mofun, mofun.cli.mofun_cli as cli
     for mod in (mofun.mofun, mofun, cli):
@@ -195,13 +202,25 @@ def install():
         if RECORD:
             snap = (snapshot_atoms(structure), snapshot_atoms(search_pattern), snapshot_atoms(replace_pattern))
         emit("replace.call", kwargs=dict(kwargs), nargs=len(args), before=snap)
+        # the mechanism behind known finding F8, stated on the inputs of the public call (not on which internal routine merges
+        # the type tables): typed atoms without a pair table receive a pattern that has one
+        f8 = _pair_merge_condition(structure, replace_pattern) or getattr(structure, "_vmon_pair_merge", False)
+        ctx0 = contracts.PAIR_MERGE_CONTEXT[0]
+        contracts.PAIR_MERGE_CONTEXT[0] = ctx0 or f8
         try:
             res = real_replace(structure, search_pattern, replace_pattern, *args, **kwargs)
         except Exception as e:
             emit("replace.raise", exc=type(e).__name__, msg=str(e)[:200], exc_obj=e, rng=rng_fingerprint())
             raise
+        finally:
+            contracts.PAIR_MERGE_CONTEXT[0] = ctx0
         emit("replace.ret", result=res, rng=rng_fingerprint())
         out = res[0] if isinstance(res, tuple) else res
+        if f8:
+            try:
+                out._vmon_pair_merge = True
+            except Exception:
+                pass
         contracts.check_atoms_consistent(out, "replace_pattern_in_structure(result)")
         return res
 
@@ -224,6 +243,8 @@ def install():
              index_map={int(k): int(v) for k, v in dict(structure_index_map).items()},
              other_positions=np.array(other.positions, dtype=float, copy=True) if RECORD else None,
              other_elements=_elements_of(other) if RECORD else None)
+        if _pair_merge_condition(self, other):
+            self._vmon_pair_merge = True
         r = real_extend(*args, **kwargs)
         emit("extend.ret", n_self=len(self))
         contracts.check_atoms_consistent(self, "Atoms.extend")
@@ -238,7 +259,7 @@ def install():
     def extend_types_wrapper(self, other):
         # remember the one mechanism behind known finding F8: typed atoms without a pair table
         # receive a pair table that only covers the other structure's types
-        if len(self.pair_coeffs) == 0 and len(other.pair_coeffs) > 0 and len(self.atom_type_elements) > 0:
+        if _pair_merge_condition(self, other):
             self._vmon_pair_merge = True
         r = real_extend_types(self, other)
         emit("extend_types", offsets=tuple(int(x) for x in r))
